@@ -13,12 +13,13 @@ Decided by symbolic execution of the real delegation code of the backend (llsym,
                value defined anywhere below is visible through the includer as the defining module's own value.
   dag:libattr  lib_build_and_cache_attr over graphs of Lib objects: a function / variable / constant defined below
                is reachable through the includer's lib, is the included lib's own object, and is cached.
-  gen:*        the same questions on REAL module tables: chains of modules generated at run time by the working
-               tree's Recompiler (ffi.include + emit_c_code), compiled to IR, initialised by the real
-               PyInit_<m> / b_init_cffi_1_0_external_module / make_included_tuples, then queried with a symbolic
-               name: every struct, union, typedef, enum and constant of an included module seen through the includer.
-  py:include   Parser.include on a symbolic declaration name (pysym): exactly the typedef/struct/union/enum/anonymous
-               declarations are shared, as the same model object, and marked as included.
+  dag:enums    realize_c_type_or_func on an enum that the includer re-lists (there is no delegation for enums): the
+               ctype is NOT the included module's object -- recorded as a known finding (see known_findings.jsonl).
+  py:include   Parser.include on a symbolic declaration key (pysym): every typedef/struct/union/enum/anonymous
+               declaration is shared as the same model object and marked as included (which is what makes the
+               Recompiler emit it as external); integer constants are visible.
+Counterexamples are replayed on real modules built from the solver's model (one out-of-line module per node of the
+graph; API-mode modules compiled with the C compiler for the lib lookups) and on a fixed three-module scenario.
 """
 import os, sys, json, subprocess, re
 import z3
@@ -63,12 +64,16 @@ struct S { int a; long b; }; union U { int x; char y; }; typedef struct S S_t; t
 enum e { EA = 3, EB }; typedef struct { int q; } anon_t; struct opq; typedef struct opq *opq_p;
 #define K 42
 """
-f1 = cffi.FFI(); f1.cdef(CDEF1); f1.set_source('_c34_m1', None); f1.emit_python_code(os.path.join(d, '_c34_m1.py'))
-f2 = cffi.FFI(); f2.include(f1); f2.cdef("struct T { struct S s; union U u; S_t *p; enum e v; anon_t w; opq_p o; };\n#define K2 7\n")
-f2.set_source('_c34_m2', None); f2.emit_python_code(os.path.join(d, '_c34_m2.py'))
-f3 = cffi.FFI(); f3.include(f2); f3.cdef("struct V { struct T t; struct S *s; };")
-f3.set_source('_c34_m3', None); f3.emit_python_code(os.path.join(d, '_c34_m3.py'))
-m1, m2, m3 = (importlib.import_module(n) for n in ('_c34_m1', '_c34_m2', '_c34_m3'))
+try:
+    f1 = cffi.FFI(); f1.cdef(CDEF1); f1.set_source('_c34_m1', None); f1.emit_python_code(os.path.join(d, '_c34_m1.py'))
+    f2 = cffi.FFI(); f2.include(f1); f2.cdef("struct T { struct S s; union U u; S_t *p; enum e v; anon_t w; opq_p o; };\n#define K2 7\n")
+    f2.set_source('_c34_m2', None); f2.emit_python_code(os.path.join(d, '_c34_m2.py'))
+    f3 = cffi.FFI(); f3.include(f2); f3.cdef("struct V { struct T t; struct S *s; };")
+    f3.set_source('_c34_m3', None); f3.emit_python_code(os.path.join(d, '_c34_m3.py'))
+    m1, m2, m3 = (importlib.import_module(n) for n in ('_c34_m1', '_c34_m2', '_c34_m3'))
+except Exception as e:
+    print('VIOLATED: declarations of the included FFI cannot be used by the including one: %%s: %%s' %% (type(e).__name__, e))
+    sys.exit(1)
 bad = []
 kinds = case.get('kinds') or ['struct', 'union', 'typedef', 'enum', 'const']
 names = {'struct': ['struct S', 'struct opq', 'struct S *'], 'union': ['union U'], 'typedef': ['S_t', 'myint', 'anon_t', 'opq_p'],
@@ -473,7 +478,7 @@ def structs_worker(args):
         created = []
 
         def new_su(e, name, flags):
-            text = e.c_string(name) if hasattr(e, 'c_string') else None
+            text = llsym.c_string(e, name)
             a = pystubs.new_ctype(e, L, mask(64), bv(simp(flags), 32), name=b'struct ?')
             e.mem.store(a, 1, 8)          # a new reference
             created.append((a, text, simp(flags)))
@@ -709,8 +714,181 @@ def libattr_worker(args):
     return hutil.export(chk)
 
 
+def enums_worker(args):
+    """enum types have no delegation: the includer's own table entry (the Recompiler re-emits the enums of included
+    FFIs) is realized into a ctype of its own"""
+    prop, tier, kind, shape_name = args
+    chk = hutil.sub_check(prop, tier)
+    mod = irgen.backend()
+    L = pystubs.CffiLayout(mod)
+    shape = SHAPES[shape_name]
+    label = 'dag:enums:%s' % shape_name
+    replay = make_replay(chk, ['enum'])
+    el = mod.struct_layout(('named', 'struct._cffi_enum_s'))
+    bl = mod.struct_layout(('named', 'struct.builder_c_t'))
+    ctxl = mod.struct_layout(('named', 'struct._cffi_type_context_s'))[0]
+    FF = mod.struct_layout(('named', 'struct.FFIObject_s'))
+    tb_off = FF[0][6]
+    sys.path.insert(0, os.path.join(common.REPO, 'src'))
+    from cffi import cffi_opcode
+    ex = llsym.Executor(mod, pystubs.stubs(), loop_bound=16, max_depth=130)
+
+    def h(ex):
+        py = pystubs.PyEnv(ex)
+        install_ffierror(ex)
+        mem = ex.mem
+        nodes = [0] + reach(shape)
+        ffi, types, names = {}, {}, {}
+        empty = mem.alloc(1, 'no enumerators', 'heap', fill=0)
+        for k in nodes:
+            f = py.new_obj('ffi', 'FFI_Type', FF[1] + 16)
+            ffi[k] = f
+            b = f + tb_off
+            types[k] = mem.alloc(8, 'types[%d]' % k, 'heap', fill=0)
+            mem.store(types[k].base, cffi_opcode.OP_ENUM | (0 << 8), 8)
+            c = z3.BitVec('enum_name_%d' % k, 8)
+            ex.assume(z3.Or(*[c == ord(ch) for ch in NAMES]))
+            nm = mem.alloc(2, 'enum name[%d]' % k, 'heap', fill=0)
+            mem.store(nm.base, c, 1)
+            names[k] = c
+            e = mem.alloc(el[1], 'enums[%d]' % k, 'heap', fill=0)
+            mem.store(e.base + el[0][0], nm.base, 8)
+            mem.store(e.base + el[0][1], 0, 4)
+            mem.store(e.base + el[0][2], cffi_opcode.PRIM_UINT, 4)
+            mem.store(e.base + el[0][3], empty.base, 8)
+            mem.store(b + bl[0][0] + ctxl[0], types[k].base, 8)
+            mem.store(b + bl[0][0] + ctxl[4], e.base, 8)
+            mem.store(b + bl[0][0] + ctxl[8], 1, 4)
+            mem.store(b + bl[0][0] + ctxl[11], 1, 4)
+            mem.store(b + bl[0][1], py.new_opaque('dict', 'PyDict_Type', items=[]), 8)
+        for k in nodes:
+            inc = shape.get(k, [])
+            if inc:
+                mem.store(ffi[k] + tb_off + bl[0][2], py.new_tuple([ffi[c] for c in inc]), 8)
+                for g in inc:
+                    ex.assume(names[k] == names[g])          # the Recompiler re-emits the enums of included FFIs
+        created = []
+
+        def new_enum(e_, self_, args_):
+            a = pystubs.new_ctype(e_, L, 4, L.flags['CT_PRIMITIVE_UNSIGNED'] | L.flags['CT_IS_ENUM'], name=b'enum ?')
+            e_.mem.store(a, 1, 8)
+            created.append(a)
+            return a
+        prim = pystubs.new_ctype(ex, L, 4, L.flags['CT_PRIMITIVE_UNSIGNED'], name=b'unsigned int')
+        ex.stubs.update({'b_new_enum_type': new_enum, 'build_primitive_type': lambda e_, n_: prim,
+                         'Py_BuildValue': lambda e_, fmt, *a: py.new_opaque('args-tuple'),
+                         '_Py_BuildValue_SizeT': lambda e_, fmt, *a: py.new_opaque('args-tuple')})
+        inputs = dict(('enum_name_%d' % k, names[k]) for k in nodes)
+        leaf = reach(shape)[-1]
+        D = lambda n, c: hutil.discharge(chk, ex, label + ':' + n, c, inputs, tags=TAGS, replay=replay, extra_case={'decl_kind': 'enum'})
+        y = simp(ex.call('realize_c_type_or_func', [ffi[leaf] + tb_off, types[leaf].base, 0]))
+        x = simp(ex.call('realize_c_type_or_func', [ffi[0] + tb_off, types[0].base, 0]))
+        hutil.witness(chk, ex, label + ':realized')
+        okk = is_c(x) and is_c(y) and x != 0 and y != 0 and py.exc is None
+        hutil.discharge(chk, ex, label + ':enum-visible-through-includer', okk, inputs, replay=replay)
+        if okk:
+            D('same-ctype-object-as-the-defining-ffi', x == y)
+
+    res = ex.explore(h, max_paths=2000)
+    hutil.finish_explore(chk, ex, res, label)
+    if not chk.witnesses:
+        chk.inconc(label + ': no path reached an obligation (assumptions unsatisfiable?)')
+    chk.functions = irgen.func_info(mod, sorted(ex.called))
+    return hutil.export(chk)
+
+
+class ADict(object):
+    """association list standing in for the declaration dict (keys are symbolic strings: no hashing)"""
+
+    def __init__(self, items=()):
+        self._items = [list(it) for it in items]
+
+    def _find(self, k):
+        for it in self._items:
+            if it[0] is k or bool(it[0] == k):
+                return it
+        return None
+
+    def __contains__(self, k):
+        return self._find(k) is not None
+
+    def __getitem__(self, k):
+        it = self._find(k)
+        if it is None:
+            raise KeyError(k)
+        return it[1]
+
+    def __setitem__(self, k, v):
+        it = self._find(k)
+        if it is None:
+            self._items.append([k, v])
+        else:
+            it[1] = v
+
+    def get(self, k, default=None):
+        it = self._find(k)
+        return default if it is None else it[1]
+
+    def items(self):
+        return [tuple(it) for it in self._items]
+
+    def __len__(self):
+        return len(self._items)
+
+
+def pyinclude_worker(args):
+    """FFI.include -> Parser.include on a declaration whose key 'kind name' is a symbolic string"""
+    prop, tier, kind, L = args
+    chk = hutil.sub_check(prop, tier)
+    sys.path.insert(0, os.path.join(common.REPO, 'src'))
+    from vf import symstr
+    from cffi import cparser, model
+    label = 'py:include:key-length-%d' % L
+    ex = pysym.PyExplorer()
+    KINDS = ('typedef', 'struct', 'union', 'enum', 'anonymous')
+    ALPHA = [ord(c) for c in ' $_abcdefghijklmnopqrstuvwxyz0']
+
+    def h(ex):
+        name = symstr.SymStr.fresh(ex, 'key', L)
+        for c in name.chars:
+            ex.add_definition(z3.Or(*[c == v for v in ALPHA]))
+        # '__dotdotdot__' is a reserved word of the parser (asserted by _declare)
+        for i in range(0, L - 12):
+            ex.add_definition(z3.Not(name._match_at(i, [ord(ch) for ch in '__dotdotdot__'])))
+        other, me = cparser.Parser(), cparser.Parser()
+        tp = model.StructType('s', None, None, None)
+        other._declarations = ADict([(name, (tp, 0))])
+        me._declarations = ADict()
+        other._int_constants = {'K': 42}
+        me.include(other)
+        inputs = dict(('key[%d]' % i, c) for i, c in enumerate(name.chars))
+        got = None
+        for k_, v_ in me._declarations.items():
+            if k_ is name:
+                got = v_
+        # the statement: declarations of these kinds are shared
+        is_shared_kind = z3.Or(*[name._match_at(0, [ord(ch) for ch in k + ' ']) for k in KINDS if len(k) + 1 <= L] + [z3.BoolVal(False)])
+        anon_enum = name._match_at(0, [ord(ch) for ch in 'anonymous $enum_$']) if L >= 17 else False
+        must = z3.And(is_shared_kind, z3.Not(anon_enum)) if anon_enum is not False else is_shared_kind
+        if got is None:
+            hutil.witness(chk, ex, label + ':not-copied')
+            hutil.discharge(chk, ex, label + ':type-declaration=>shared', z3.Not(must), inputs, replay=make_replay(chk, ['struct', 'union', 'typedef']))
+        else:
+            hutil.witness(chk, ex, label + ':shared')
+            hutil.discharge(chk, ex, label + ':same-model-object', got[0] is tp and got[1] == 0, inputs, replay=make_replay(chk, ['struct', 'union', 'typedef']))
+            hutil.discharge(chk, ex, label + ':marked-as-included', tp in me._included_declarations, inputs, replay=make_replay(chk, ['struct', 'union', 'typedef']))
+        hutil.discharge(chk, ex, label + ':integer-constants-visible', me._int_constants.get('K') == 42, inputs)
+
+    res = ex.explore(h, max_paths=20000)
+    hutil.finish_explore(chk, ex, res, label)
+    if not chk.witnesses:
+        chk.inconc(label + ': no path reached an obligation')
+    chk.functions = [{'name': n, 'file': 'src/cffi/cparser.py'} for n in ('Parser.include', 'Parser._declare', 'Parser._add_constants')]
+    return hutil.export(chk)
+
+
 def dispatch(args):
-    return {'structs': structs_worker, 'consts': consts_worker, 'libattr': libattr_worker}[args[2]](args)
+    return {'structs': structs_worker, 'consts': consts_worker, 'libattr': libattr_worker, 'enums': enums_worker, 'pyinclude': pyinclude_worker}[args[2]](args)
 
 
 def run(chk):
@@ -723,12 +901,18 @@ def run(chk):
             for order in ('includer-first', 'definer-first'):
                 cases.append(P + ('structs', s, q, order))
         cases.append(P + ('consts', s))
+        if s in ('pair', 'chain3'):
+            cases.append(P + ('enums', s))
         cases.append(P + ('libattr', s, False))
         cases.append(P + ('libattr', s, True))
+    for L in ((6, 8, 9, 12) if quick else (5, 6, 7, 8, 9, 10, 11, 12, 14, 18)):
+        cases.append(P + ('pyinclude', L))
     chk.bounds = {'include graphs': ', '.join('%s=%r' % (s, SHAPES[s]) for s in shapes),
                   'tables': '%s entries per module, one-letter names over %r, every flag combination of external/union/opaque; '
                             'every searched name; global tables: 1 entry in the asked module, 2 in the others' % ('; '.join('%s: %r' % (s, SIZES[s]) for s in shapes), NAMES)}
-    chk.outside = ['include graphs deeper than 4 modules or wider than 2 includes per module; tables of more than 2 entries',
+    chk.outside = ['the import-time wiring of generated modules (make_included_tuples / _cffi_init: exercised by the real replays only)',
+                   'a tag used both as struct and as union in one graph (not valid C)',
+                   'include graphs deeper than 4 modules or wider than 2 includes per module; tables of more than 2 entries',
                    'in-line (non-generated) FFIs: sharing goes through model objects and the backend type cache (compared in the replay only)',
                    'the 100-level recursion limit']
     chk.assume('tables satisfy the invariant Parser.include and the Recompiler establish: sorted names, includers re-list the '
